@@ -77,7 +77,7 @@ def rand_ext(rng):
 def streams(rng, tier):
     q = tier == "quick"
     out = []
-    n = 2500 if q else 60000
+    n = 4000 if q else 60000
     for _ in range(n):
         v = rand_pv(rng)
         abis = rand_list(rng, abi_pool(rng, v), [0, 1, 1, 2, 3, 5])
